@@ -58,8 +58,35 @@ def make_decoders(cfg: dict, rng: random.Random):
     return NMEA2000Decoder(**kw), NMEA2000Decoder(**common), NMEA2000Decoder(**common), entries
 
 
-def packet_for(ev: dict, counter: list) -> tuple[bytes, dict]:
-    """concrete EByte packet + the model input with concrete content"""
+class Frame(tuple):
+    """(pgn, src, dst, prio, data): a CAN frame before it is given a wire format"""
+
+
+FORMATS = ("tcp", "usb", "yd", "plain-old", "plain-future", "acti-late")
+
+
+def deliver(dec, fr: Frame, fmt: str):
+    """hand the frame to the decoder through one of its input formats; the time stamps the text formats carry are
+    far from the wall clock on purpose (a log from 2011, one from 2031, a gateway that has been up for two hours):
+    what a decoder returns does not depend on them"""
+    from . import clientrun as cr
+    pgn, src, dst, prio, data = fr
+    pf = (pgn >> 8) & 0xFF
+    ident = (prio << 26) | (((pgn & 0x3FF00) | dst if pf < 240 else pgn) << 8) | src
+    if fmt == "usb":
+        return dec.decode_usb(cr.usb_packet(ident, bytes(data)))
+    if fmt == "yd":
+        return dec.decode_yacht_devices_string("23:59:58.500 R %08X %s" % (ident, " ".join("%02X" % b for b in data)))
+    if fmt in ("plain-old", "plain-future"):
+        stamp = "2011-11-24-22:42:04.388" if fmt == "plain-old" else "2031-01-02-03:04:05.678"
+        return dec.decode_basic_string("%s,%d,%d,%d,%d,%d,%s" % (stamp, prio, pgn, src, dst, len(data), ",".join("%02x" % b for b in data)))
+    if fmt == "acti-late":               # (whole messages only: never used for fast-packet frames)
+        return dec.decode_actisense_string("A007200.250 %05X %05X %s" % ((src << 12) | (dst << 4) | prio, pgn, bytes(data).hex().upper()))
+    return dec.decode_tcp(fp.ebyte_packet(pgn, src, dst, prio, bytes(data)))
+
+
+def packet_for(ev: dict, counter: list) -> tuple[Frame, dict]:
+    """concrete CAN frame + the model input with concrete content"""
     k = ev["k"]
     if k == "single":
         counter[0] += 1
@@ -75,7 +102,7 @@ def packet_for(ev: dict, counter: list) -> tuple[bytes, dict]:
         else:
             payload = bytes([c % 250, 0x10 + c % 100, 0x01, 0x20, 0x03, 0xFA, 0xFF, 0xFF])
         src = SRC[ev["src"]]
-        return fp.ebyte_packet(PGN[ev["pgn"]], src, 255, 2, payload), \
+        return Frame((PGN[ev["pgn"]], src, 255, 2, payload)), \
             {"k": "single", "pgn": ev["pgn"], "src": ev["src"], "tok": list(payload)}
     if k == "frame":
         src = SRC[ev["src"]]
@@ -86,17 +113,17 @@ def packet_for(ev: dict, counter: list) -> tuple[bytes, dict]:
         full = bytes([0x10 + ev["seq"], 0x20, 0x00, 0x10, 0x20, 0x01, ev["src"], 0x02, 0x03, 0x00, 0x05, 0x06, 0x07, 0x00])
         chunk = list(full[start:start + ln]) if len(ev["chunk"]) > 0 else []      # () = a truncated frame
         data = fp.can_data(ev["seq"], i, n, chunk)
-        return fp.ebyte_packet(PGN["F"], src, 255, 6, data), \
+        return Frame((PGN["F"], src, 255, 6, data)), \
             {"k": "frame", "src": ev["src"], "seq": ev["seq"], "fc": i, "len": n, "chunk": chunk}
     if k == "claim":
-        return fp.ebyte_packet(PGN["CLAIM"], SRC[ev["src"]], 255, 6, name_payload(ev["name"], ev["src"])), \
+        return Frame((PGN["CLAIM"], SRC[ev["src"]], 255, 6, name_payload(ev["name"], ev["src"]))), \
             {"k": "claim", "src": ev["src"], "name": ev["name"]}
     if k == "nomatch":                     # PGN 65285 from a manufacturer none of its definitions is for
         counter[0] += 1
-        return fp.ebyte_packet(PGN["Q"], SRC[ev["src"]], 255, 2, bytes([0x66, 0x99, counter[0] % 250, 2, 3, 4, 5, 6])), \
+        return Frame((PGN["Q"], SRC[ev["src"]], 255, 2, bytes([0x66, 0x99, counter[0] % 250, 2, 3, 4, 5, 6]))), \
             {"k": "nomatch", "src": ev["src"]}
     if k == "unknown":
-        return fp.ebyte_packet(UNKNOWN_PGN, SRC[ev["src"]], 255, 6, b"\x01\x02\x03\x04\x05\x06\x07\x08"), \
+        return Frame((UNKNOWN_PGN, SRC[ev["src"]], 255, 6, b"\x01\x02\x03\x04\x05\x06\x07\x08")), \
             {"k": "unknown", "src": ev["src"]}
     raise ValueError(k)
 
@@ -203,8 +230,10 @@ def replay(behaviours, rng: random.Random):
                                 "obsF": observe(F, lambda d: feed_bad(d, b)), "obsU": observe(U, lambda d: feed_bad(d, b))})
                     continue
                 pkt, min_ = packet_for(ev, counter)
-                evs.append({"in": uniform(min_), "window": window, "who": "FU",
-                            "obsF": observe(F, lambda d: d.decode_tcp(pkt)), "obsU": observe(U, lambda d: d.decode_tcp(pkt))})
+                # every step arrives through another input format (the same one for the decoder and its twin)
+                fmt = rng.choice(FORMATS[:5] if k == "frame" else FORMATS)
+                evs.append({"in": uniform(min_), "window": window, "who": "FU", "fmt": fmt,
+                            "obsF": observe(F, lambda d: deliver(d, pkt, fmt)), "obsU": observe(U, lambda d: deliver(d, pkt, fmt))})
             traces.append({"cfg": cfg, "evs": evs, "entries": [str(e) for e in entries]})
             for d in (F, U, G):
                 d.close()
